@@ -172,6 +172,49 @@ pub fn generate(thorough: bool) -> Vec<Dup> {
         }
     }
 
+    // ---- 2c. the same rule however many fields the header has: unknown fields before the parameters and between
+    //          the two occurrences (field counts across small fixed capacities: 8, 16, 32, 64, 256)
+    for key in ["Credential", "SignedHeaders", "Signature"] {
+        for front in [0usize, 1, 5, 6, 7, 8, 9] {
+            for gap in [0usize, 1, 3, 4, 5, 6, 7, 8, 13, 14, 15, 16, 29, 30, 31, 32, 61, 62, 63, 64, 253, 254, 255, 256, 300] {
+                if front != 0 && gap > 16 {
+                    continue;
+                }
+                for valid_last in [true, false] {
+                    let mut plan = e2e::base_plan(Carrier::Header);
+                    plan.headers.push(("X-Extra".into(), b"e".to_vec()));
+                    plan.signed.push("x-extra".into());
+                    let built = build(&plan);
+                    let mut w = WireReq::from_wire(&built.wire);
+                    let (c, sh, s) = auth_fields(&w);
+                    let (valid_val, decoy) = match key {
+                        "Credential" => (c.clone(), c.replace("AKIDEXAMPLE", "AKIDOTHER")),
+                        "SignedHeaders" => (sh.clone(), "host;x-amz-date".to_string()),
+                        _ => (s.clone(), "0".repeat(64)),
+                    };
+                    let mut parts: Vec<String> = (0..front).map(|i| format!("f{}=v{}", i, i)).collect();
+                    for x in ["Credential", "SignedHeaders", "Signature"] {
+                        if x != key {
+                            parts.push(format!("{}={}", x, match x { "Credential" => c.clone(), "SignedHeaders" => sh.clone(), _ => s.clone() }));
+                        }
+                    }
+                    parts.push(format!("{}={}", key, if valid_last { &decoy } else { &valid_val }));
+                    parts.extend((0..gap).map(|i| format!("g{}=w{}", i, i)));
+                    parts.push(format!("{}={}", key, if valid_last { &valid_val } else { &decoy }));
+                    set_header(&mut w, "authorization", format!("AWS4-HMAC-SHA256 {}", parts.join(", ")).into_bytes());
+                    out.push(Dup {
+                        label: format!("{} twice, {} unknown fields in front, {} in between, valid one {}", key, front, gap, if valid_last { "last" } else { "first" }),
+                        wire: w,
+                        cfg: cfg.clone(),
+                        expect_ok: valid_last,
+                        expect_ask: if key == "Credential" && !valid_last { Some(("AKIDOTHER".into(), None)) } else { Some((e2e::ACCESS_KEY.into(), None)) },
+                        expect_both_carriers: false,
+                    });
+                }
+            }
+        }
+    }
+
     // ---- 2b. parameter names are case-sensitive: a differently-cased look-alike is another parameter and
     //          never competes with the real one, wherever it stands (each arrangement is run repeatedly, so a
     //          choice that depends on hash-map iteration order shows up)
@@ -696,7 +739,7 @@ pub fn run(ctx: &Ctx) -> Report {
     });
     Report {
         stats: st,
-        rule: "for each duplicable input — Authorization header (4 decoy kinds, with/without interleaved headers); Credential / SignedHeaders / Signature inside it (2 separators), and differently-cased look-alikes of those names before/after the real ones (24 runs each); X-Amz-Date header (signed or not); X-Amz-Date vs Date in both orders; X-Amz-Security-Token header; query X-Amz-Algorithm / -Credential / -Date / -SignedHeaders / -Security-Token (adjacent or spread) and X-Amz-Signature — 2 or 3 occurrences with differing values and the single valid value at every position; the request is signed as received (all values in the canonical form) with the valid occurrence's data, so it validates iff the documented rule selects that occurrence; each X-Amz-* parameter once in the URL and once in a folded form body (valid one in either place, body with fewer or more names than the URL); inputs of the carrier that is NOT in use present as decoys (X-Amz-* query parameters next to an Authorization header; date / token / credential headers next to query authentication); plus Authorization together with X-Amz-Algorithm (3 values) in the URL, in a folded body and as a complete second authentication; thorough adds all pairs of duplicated date x token. Oracle: generator's expectation (independent of the reference verifier, and cross-checked against it), error kind and provider identity. states = (stage, identity seen by provider)".into(),
+        rule: "for each duplicable input — Authorization header (4 decoy kinds, with/without interleaved headers); Credential / SignedHeaders / Signature inside it (2 separators), the same with 0..9 unknown fields in front and 0..300 unknown fields between the two occurrences (field counts across 8, 16, 32, 64, 256), and differently-cased look-alikes of those names before/after the real ones (24 runs each); X-Amz-Date header (signed or not); X-Amz-Date vs Date in both orders; X-Amz-Security-Token header; query X-Amz-Algorithm / -Credential / -Date / -SignedHeaders / -Security-Token (adjacent or spread) and X-Amz-Signature — 2 or 3 occurrences with differing values and the single valid value at every position; the request is signed as received (all values in the canonical form) with the valid occurrence's data, so it validates iff the documented rule selects that occurrence; each X-Amz-* parameter once in the URL and once in a folded form body (valid one in either place, body with fewer or more names than the URL); inputs of the carrier that is NOT in use present as decoys (X-Amz-* query parameters next to an Authorization header; date / token / credential headers next to query authentication); plus Authorization together with X-Amz-Algorithm (3 values) in the URL, in a folded body and as a complete second authentication; thorough adds all pairs of duplicated date x token. Oracle: generator's expectation (independent of the reference verifier, and cross-checked against it), error kind and provider identity. states = (stage, identity seen by provider)".into(),
         bounds: json!({"cases": n, "occurrences": [2, 3]}),
         exhaustive: true,
         assumptions: vec![],
